@@ -437,7 +437,7 @@ fn all_error_cases(sink: &mut Sink<'_>) {
     let t = "EA";
     error_case(t, &EA::Plain, "org.ex.A.Plain", None, sink);
     error_case(t, &EA::Another, "org.ex.A.Another", None, sink);
-    for (code, msg) in [(0, ""), (-7, "m\"q"), (i32::MAX, "long message with \u{e9}")] {
+    for (code, msg) in [(0, ""), (-7, "m\"q"), (i32::MAX, "long message with \u{e9}"), (1, "ctl \u{1f}\u{1}\u{7f}\u{0} end")] {
         error_case(t, &EA::WithFields { code, msg: msg.into() }, "org.ex.A.WithFields", Some(json!({"code": code, "msg": msg})), sink);
     }
     for (a, b) in [(0u8, false), (255, true)] {
@@ -509,6 +509,7 @@ fn reply_cases(sink: &mut Sink<'_>) {
     reply_cases_for("Marker (zero-sized)", Marker(std::marker::PhantomData, []), json!([null, []]), sink);
     reply_cases_for("Vec<u8> (empty)", Vec::<u8>::new(), json!([]), sink);
     reply_cases_for("String (empty)", String::new(), json!(""), sink);
+    reply_cases_for("String (control characters)", "a\u{1f}b\u{1}\u{7f}\u{0}".to_string(), json!("a\u{1f}b\u{1}\u{7f}\u{0}"), sink);
     reply_cases_for("u64 (0)", 0u64, json!(0), sink);
     reply_cases_for("bool (false)", false, json!(false), sink);
 }
